@@ -313,6 +313,8 @@ package slip
 //@   ensures uint8: is(val, uint8) ==> (is(obj, Octet) && as(obj, Octet) == as(val, uint8))
 //@   ensures uint16: is(val, uint16) ==> (is(obj, Fixnum) && as(obj, Fixnum) == as(val, uint16))
 //@   ensures uint32: is(val, uint32) ==> (is(obj, Fixnum) && as(obj, Fixnum) == as(val, uint32))
+//@   ensures uint64: is(val, uint64) ==> ((is(obj, Fixnum) && as(obj, Fixnum) == as(val, uint64)) || is(obj, ptr(Bignum)))
+//@   ensures uint: is(val, uint) ==> ((is(obj, Fixnum) && as(obj, Fixnum) == as(val, uint)) || is(obj, ptr(Bignum)))
 //@   ensures bool: is(val, bool) ==> ((obj != nil) <==> as(val, bool))
 //@   ensures string: is(val, string) ==> (is(obj, String) && as(obj, String) == as(val, string))
 //@   ensures float64: is(val, float64) ==> is(obj, DoubleFloat)
